@@ -3,14 +3,31 @@ AlignmentResultRow.cigarString, decoded by an independent replay of the HitEnum 
 import itertools
 import random
 import re
-from bcheck.common import pmap, result
+from bcheck.common import pmap, result, time_limit, CaseTimeout
 
 AGG = 'src/alignment/alignment_results.py::AlignmentResultRow.__aggregateHitEnums'
 GHE = 'src/alignment/alignment_results.py::AlignmentResultRow.__getHitEnums'
 CIG = 'src/alignment/alignment_results.py::AlignmentResultRow.cigarString'
 
 
-def make_row(pairs):
+def make_row(pairs, split=None):
+    """split = None: one segment; (k, where): pairs[:k] and pairs[k:] as two segments with an empty segment
+    inserted at position `where` (0 front, 1 middle, 2 back, 3 none)"""
+    row = _make_row(pairs)
+    if split is None:
+        return row
+    from src.alignment.alignment_results import AlignmentResultRow
+    from src.alignment.segments import AlignmentSegment, EmptyAlignmentSegment
+    from src.correlation.peak import Peak
+    k, where = split
+    pos = row.segments[0].positions
+    segs = [AlignmentSegment(p, 1000. * len(p), Peak.null, []) for p in (pos[:k], pos[k:]) if p]
+    if where < 3:
+        segs.insert(min(where, len(segs)), EmptyAlignmentSegment())
+    return AlignmentResultRow(segs)
+
+
+def _make_row(pairs):
     from src.alignment.alignment_position import AlignedPair, ScoredAlignedPair
     from src.alignment.alignment_results import AlignmentResultRow
     from src.alignment.segments import AlignmentSegment
@@ -53,9 +70,12 @@ def decode(text, pairs, d):
 
 
 def run_case(case):
-    pairs, d = case
+    pairs, d = case[0], case[1]
     try:
-        text = make_row(pairs).cigarString
+        with time_limit(5):
+            text = make_row(pairs, case[2] if len(case) > 2 else None).cigarString
+    except CaseTimeout:
+        return case, ['exception:does_not_terminate_within_5s'], None
     except Exception as e:
         return case, ['exception:' + type(e).__name__ + ':' + str(e)[:80]], None
     return case, decode(text, pairs, d), text
@@ -63,12 +83,17 @@ def run_case(case):
 
 def run_chunk(cases):
     out, nt = [], 0
+    slow = 0
     for c in cases:
         case, bad, text = run_case(c)
         if text and ('D' in text or 'I' in text):
             nt += 1
         if bad:
             out.append((case, bad, text))
+            if 'terminate' in bad[0]:
+                slow += 1
+                if slow >= 2:
+                    break
     return len(cases), nt, out[:20]
 
 
@@ -79,6 +104,10 @@ def matchings(n):
                 yield tuple(zip(rs, qs)), 1
                 if k >= 1:
                     yield tuple(zip(rs, reversed(qs))), -1
+                if 1 <= k <= 3 and n <= 6:
+                    for cut in range(0, k + 1):
+                        for where in range(4):
+                            yield tuple(zip(rs, qs)), 1, (cut, where)
 
 
 def blame_of(bad):
@@ -108,7 +137,7 @@ def bounded(repo, tier, seed):
     for r in res:
         for case, bad, text in r[2]:
             fid, key = blame_of(bad)
-            viol.append(dict(key=key, blame=fid, input=dict(pairs=[list(p) for p in case[0]], direction=case[1]),
+            viol.append(dict(key=key, blame=fid, input=dict(pairs=[list(p) for p in case[0]], direction=case[1], split=list(case[2]) if len(case) > 2 else None),
                              observed=dict(hitenum=text, violated=bad), required='C03 statement'))
     viol.sort(key=lambda v: len(v['input']['pairs']))
     uniq = {}
@@ -125,5 +154,6 @@ def replay(repo, rp):
     from bcheck.common import use_repo
     use_repo(repo)
     i = rp['input']
-    case, bad, text = run_case((tuple(tuple(p) for p in i['pairs']), i['direction']))
+    c = (tuple(tuple(p) for p in i['pairs']), i['direction']) + ((tuple(i['split']),) if i.get('split') else ())
+    case, bad, text = run_case(c)
     return (not bad), dict(hitenum=text, violated=bad)
